@@ -69,7 +69,13 @@ def _read(data):
     return list(DiffXReader(SymStream(data)))
 
 
-def ob_insert(ctx, fname, K, N, headers=None):
+def _line_len(sections, hi, extras):
+    hid, opts, _ = sections[hi]
+    items = [len(o) for o in opts] + [len(lift(k).el) + 1 + len(lift(v).el) for _, k, v in extras]
+    return len(hid) + sum(items) + (1 + 2 * (len(items) - 1) if items else 0)
+
+
+def ob_insert(ctx, fname, K, N, headers=None, pad_lengths=None):
     sections = FILES[fname]
     crlf = fname.endswith('crlf')
     base = _read(build(sections, crlf))
@@ -90,6 +96,17 @@ def ob_insert(ctx, fname, K, N, headers=None):
                 ctx.assume(neg(c))
         pos = ctx.choose(0, nopts + j, 'pos%d' % j)
         extras.append((pos, k, v))
+    if pad_lengths:
+        # the value is padded with concrete characters so that the header line (without its newline) has a chosen
+        # length: around multiples of the reader's read-ahead block, where its line search changes behaviour
+        L = ctx.pick('header-len', pad_lengths)
+        pad = L - _line_len(sections, hi, extras)
+        if pad < 0:
+            return skip('header already longer than %d' % L)
+        pos, k, v = extras[0]
+        where = ctx.pick('pad-at', ['front', 'back'])
+        v = mk_seq((tuple(b'x' * pad) + tuple(v.el)) if where == 'front' else (tuple(v.el) + tuple(b'x' * pad)), bytes)
+        extras[0] = (pos, k, v)
     if nextra == 2:
         c = extras[0][1].eq_cond(extras[1][1])
         if c is not False:
@@ -218,6 +235,16 @@ def obligations(tier):
                       path_timeout=20, desc='unknown keys that look like known options (every case variant, known name + one '
                       'symbolic character as suffix / prefix) with a conflicting value, in every header at every position',
                       bounds={'known_names': len(LOOKALIKE_VALUES), 'variants': ['case', 'suffix', 'prefix']}))
+    from harness.C17 import block_lengths
+    PL = block_lengths([94, 95, 96, 97, 191, 192] if quick else
+                       [93, 94, 95, 96, 97, 98, 127, 128, 129, 190, 191, 192, 193, 255, 256, 287, 288, 383, 384, 1055, 1056], quick)
+    for fname in FILES:
+        obs.append(Ob('padded[%s]' % fname, ob_insert, dict(fname=fname, K=1, N=1, pad_lengths=PL),
+                      must_reach=['DiffXReader._read_header'], path_timeout=20,
+                      desc='one unknown option (symbolic 1-byte key, value = concrete padding + symbolic byte) in any header '
+                           'at any position, padded so that the header line is %s bytes long (around multiples of the '
+                           'read-ahead block; LF and CRLF files)' % PL,
+                      bounds={'header_len': PL, 'headers': len(FILES[fname])}))
     hs = [1, 8] if quick else [0, 1, 2, 4, 6, 8]
     N2 = 1 if quick else 2
     obs.append(Ob('insert2[utf8]', ob_insert, dict(fname='utf8', K=2, N=N2, headers=hs),
